@@ -1,0 +1,16 @@
+//go:build !verif
+
+package goatlang
+
+// Verification hooks (see verif_on.go). With the verif build tag off these
+// are zero-size types and empty functions that compile to nothing.
+
+type verifGlobals struct{}
+type verifVM struct{}
+
+func verifStep(v *VM)                         {}
+func verifTop(v *VM, slots int)               {}
+func verifEnd(v *VM)                          {}
+func verifEnter(v *VM, args, rets, slots int) {}
+func verifLeave(v *VM, topN, rets int)        {}
+func verifNoOptimize(c *compiler) bool        { return false }
